@@ -1,6 +1,7 @@
 package sim
 
 import (
+	"bytes"
 	"context"
 	"fmt"
 	"strings"
@@ -305,6 +306,19 @@ func (d *Driver) doAction(a *Action) {
 	switch a.Kind {
 	case AOutPut:
 		key := a.Key
+		if bytes.Contains(a.Value, []byte("$")) {
+			id, tok, self := "nobody", "00000000-0000-4000-8000-00000000ffff", "nobody"
+			if lv := d.store.Live(key, now); lv != nil && lv.P.OK {
+				id, tok = lv.P.ID, lv.P.Token
+			}
+			if in != nil {
+				self = in.cfg.ID
+			}
+			v := bytes.ReplaceAll(a.Value, []byte("$ID"), []byte(id))
+			v = bytes.ReplaceAll(v, []byte("$TOKEN"), []byte(tok))
+			v = bytes.ReplaceAll(v, []byte("$SELF"), []byte(self))
+			a = &Action{Kind: a.Kind, Key: a.Key, Value: v, Inst: a.Inst}
+		}
 		op := &Op{ID: len(d.h.Ops), Inst: -1, Kind: "put", Key: key, Val: a.Value, TInvoke: now, TApply: now, TRet: now, SInvoke: d.step, SApply: d.step, SRet: d.step, Applied: true, OK: true, Caller: "outsider", retDone: true}
 		d.h.Ops = append(d.h.Ops, op)
 		d.execOnStore(op, now)
@@ -514,7 +528,7 @@ func (d *Driver) notify(o *elObj, kind string) {
 		cb = o.conn.ClosedHandler()
 	}
 	d.mu.Lock()
-	d.h.Notifs = append(d.h.Notifs, &NotifEvt{Inst: o.in.idx, Gen: o.gen, Kind: kind, T: d.now(), Step: d.step})
+	d.h.Notifs = append(d.h.Notifs, &NotifEvt{Inst: o.in.idx, Gen: o.gen, Kind: kind, T: d.now(), Step: d.step, Leader: o.el.IsLeader()})
 	d.fault("notif_" + kind)
 	d.mu.Unlock()
 	if cb == nil {
